@@ -6,7 +6,7 @@ namespace LLFree
 open Prog
 
 section
-variable {c : Cfg} {H : Nat → Prop} {P : Nat → Nat} {R : Nat → Prop} {m : Mem}
+variable {c : Cfg} {H : Nat → Nat} {P : Nat → Nat} {R : Nat → Prop} {m : Mem}
 
 /-- a slot index belongs to at most one class -/
 theorem slotClass_unique (ok : CfgOk c) (s k k' : Nat) (h : c.slotClass s k) (h' : c.slotClass s k') : k = k' := by
@@ -50,7 +50,7 @@ theorem Tree.reserveOrSteal_ordered (ok : CfgOk c) (t : Tree) (cls n : Nat) (hcl
     simp only [hc, Bool.false_eq_true, if_false]
 
 /-- what `Trees::reserve_or_steal` did to tree `i` -/
-def TreesReserved (c : Cfg) (H : Nat → Prop) (P : Nat → Nat) (R : Nat → Prop) (m : Mem) (i cls n : Nat)
+def TreesReserved (c : Cfg) (H : Nat → Nat) (P : Nat → Nat) (R : Nat → Prop) (m : Mem) (i cls n : Nat)
     (r : Option (Bool × Nat × Nat)) (m' : Mem) : Prop :=
   match r with
   | none => m = m' ∧ ∀ t : Tree, m.trees[i]? = some t → ¬ (t.free ≥ n ∧ t.reserved = false)
@@ -88,9 +88,8 @@ theorem trees_reserveOrSteal_spec (ok : CfgOk c) (inv : UpperInv c H P R m) (i c
       · intro _; exact hnoslot
       · intro j hj; exact ⟨fun h => h.elim id (fun e => absurd e hj), Or.inl⟩
       · intro j hj; exact gset_other _ _ _ j hj
-      · intro j _ h; exact h
-      · simp only [gset_same]; omega
-      · intro hn; have := inv.counterEq i t ht hn; simp only [gset_same]; omega
+      · intro j _; rfl
+      · have := inv.counter i t ht; simp only [gset_same]; omega
     · have hf := h2 ⟨hc.1, hc.2, by omega⟩
       apply Runs.bind (Runs.upd_set (Q := fun r m' => r = .ok t ∧ m.set .tree i { t with free := t.free - n } = m')
         (by simpa using ht) hf ⟨rfl, rfl⟩)
@@ -108,7 +107,7 @@ theorem trees_reserveOrSteal_spec (ok : CfgOk c) (inv : UpperInv c H P R m) (i c
 
 /-- what `Locals::swap` did: the new reservation of tree `i` is installed; the previous one
     (if any) is in transit -/
-def SwapPost (c : Cfg) (H : Nat → Prop) (P : Nat → Nat) (R : Nat → Prop) (m : Mem) (cls i fr : Nat)
+def SwapPost (c : Cfg) (H : Nat → Nat) (P : Nat → Nat) (R : Nat → Prop) (m : Mem) (cls i fr : Nat)
     (old : Option Reservation) (m' : Mem) : Prop :=
   SameAlloc m m' ∧ m'.trees = m.trees ∧
   match old with
